@@ -70,6 +70,26 @@ Theorem C10_owner_by_name_refuted :
   map (held_owners (hw_heap w)) (hw_exts w) = [[(20%N, Some 1, Some [7%N])]; [(20%N, Some 1, Some [7%N])]].
 Proof. exact by_name_refuted. Qed.
 
+(* ONE Extension object over time (seeded round 4): definitions are added and in between the object is serialised
+   (SSer) or serialised and replaced by the object loaded back (SLoad), any number of times in any order.  Every
+   document written during the session is exactly the document a fresh extension given the additions made so far
+   would write in one go -- to which C10_ext_roundtrip applies: nothing written or loaded earlier shows. *)
+Theorem C10_session_documents :
+  forall (T ST V SV M : Type) (ser_t : T -> ST) (deser_t : ST -> T) (ser_v : V -> SV) (deser_v : SV -> V),
+  (forall t, ser_t (deser_t (ser_t t)) = ser_t t) -> (forall v, ser_v (deser_v (ser_v v)) = ser_v v) ->
+  forall n v r (p : list (sstep T V M)), Forall cmd_ok (adds p) ->
+  session_transparent (fun cs => to_serial ser_t ser_v (build (new_ext n v r) cs)) p
+                      (session ser_t deser_t ser_v deser_v (new_ext n v r) p).
+Proof. exact @session_documents. Qed.
+(* a document kept in the object from one to_json to the next and dropped by add_type_def / add_op_def but not by
+   add_extension_value breaks the statement: the second document of ex_session lacks the value added before it *)
+Theorem C10_stale_document_refuted :
+  let e0 := new_ext 5%N ex_version [8%N; 6%N; 8%N] in
+  let outs := session_stale id id e0 None ex_session in
+  ~ session_transparent (fun cs => to_serial id id (build e0 cs)) ex_session outs /\
+  map res_values outs = [Some []; Some []; Some [30%N]].
+Proof. exact stale_document_refuted. Qed.
+
 (* any document that loads (e.g. one written by another tool): what is written back is a fixed point of
    load-and-write and names the owner in every operation *)
 Theorem C10_reload_fixed_point :
@@ -104,6 +124,12 @@ Example C10_example :
             option_map (fun o => option_map (fun p => sf_reqs (sp_body p)) (so_signature o))
                        (dget N.eqb (se_ops s) 20%N) = Some (Some [4%N; 5%N; 9%N]).
 Proof. exact roundtrip_example. Qed.
+Example C10_session_example :
+  Forall (@cmd_ok N N N) (adds ex_session) /\
+  let outs := session id id id id (new_ext 5%N ex_version [8%N; 6%N; 8%N]) ex_session in
+  map res_values outs = [Some []; Some [30%N]; Some [30%N]] /\
+  nth_error outs 2 = Some (to_serial id id (build (new_ext 5%N ex_version [8%N; 6%N; 8%N]) ex_cmds)).
+Proof. exact session_example. Qed.
 (* two Extension objects named alike and one operation added to both: each holds its own definition *)
 Example C10_heap_example :
   map (held_owners (hw_heap (hrun ex_world [(0, 0); (1, 0)]))) (hw_exts (hrun ex_world [(0, 0); (1, 0)]))
@@ -124,6 +150,8 @@ Print Assumptions C10_add_leaves_other_extensions.
 Print Assumptions C10_opdef_reports_owner_object.
 Print Assumptions C10_add_leaves_other_extension_objects.
 Print Assumptions C10_owner_by_name_refuted.
+Print Assumptions C10_session_documents.
+Print Assumptions C10_stale_document_refuted.
 Print Assumptions C10_reload_fixed_point.
 Print Assumptions C10_type_params_roundtrip.
 Print Assumptions C10_bundled_eq_spec.
